@@ -24,7 +24,10 @@ var ErrLoopBound = errors.New("vlog: procedural loop exceeds iteration bound")
 // (undeclared identifiers, port mismatches ...), not unsupported constructs.
 var ErrElab = errors.New("vlog: elaboration error")
 
-const loopBound = 1 << 22
+const loopBound = 1 << 20
+
+// nbaBound limits the number of queued non-blocking assignments (checked in procedural loops).
+const nbaBound = 1 << 20
 
 // storage is one allocated signal (or memory).
 type storage struct {
@@ -95,7 +98,7 @@ type program struct {
 }
 
 type nbaEnt struct {
-	st    *storage
+	sid   int32 // storage id (keeps the queue pointer-free)
 	word  int32
 	lo    int32
 	w     int32
@@ -405,7 +408,7 @@ func (s *Sim) storeBits(st *storage, word, lo, w int, v uint64, src []uint64, sr
 
 func (s *Sim) schedNBA(st *storage, word, lo, w int, v uint64, src []uint64, srcLo int) {
 	s.nbaGen[st.id] = s.gen
-	e := nbaEnt{st: st, word: int32(word), lo: int32(lo), w: int32(w), arena: -1}
+	e := nbaEnt{sid: int32(st.id), word: int32(word), lo: int32(lo), w: int32(w), arena: -1}
 	if w <= 64 {
 		if src != nil {
 			v = getBits64(src, srcLo, w)
@@ -527,11 +530,12 @@ func (s *Sim) applyNBAs() {
 	q := s.nbaQ
 	for i := range q {
 		e := &q[i]
+		st := s.p.stor[e.sid]
 		if e.arena < 0 {
-			s.storeBits(e.st, int(e.word), int(e.lo), int(e.w), e.val, nil, 0)
+			s.storeBits(st, int(e.word), int(e.lo), int(e.w), e.val, nil, 0)
 		} else {
 			n := nwords(int(e.w))
-			s.storeBits(e.st, int(e.word), int(e.lo), int(e.w), 0, s.nbaArena[int(e.arena):int(e.arena)+n], 0)
+			s.storeBits(st, int(e.word), int(e.lo), int(e.w), 0, s.nbaArena[int(e.arena):int(e.arena)+n], 0)
 		}
 	}
 	s.nbaQ = s.nbaQ[:0]
